@@ -11,7 +11,7 @@ TARGETS = ["theories/Properties/C17.v"]
 NPARTS = 14
 
 TRUSTED = [
-    "Coq 8.16.1 kernel (coqc; vm_compute for the test vectors, the byte sweeps of the zbase32 group lemma and the Examples); "
+    "Coq 8.16.1 kernel (coqc; coqchk -o on the cone in the thorough tier; vm_compute for the test vectors, the byte sweeps of the zbase32 group lemma and the Examples); "
     "no axioms (Print Assumptions of all 19 theorems: closed under the global context)",
     "tools/translate_crypto.py: nonce expression, key-derivation / cipher / (de)serialisation statements of encrypt and decrypt, the bodies of "
     "sign/verify/recover_pk (teos-common/src/cryptography.rs) and the slice bounds of Locator::new (appointment.rs); strict templates, anything "
@@ -107,6 +107,12 @@ def run(ctx):
     ctx.translate()
     res = ctx.coq_build(TARGETS)
     ctx.coq_hygiene(TARGETS, res)
+    if thorough and res.get("ok"):
+        rc, out, dt = vlib.sh(["coqchk", "-o", "-silent", "-Q", "theories", "TeosModel", "TeosModel.Properties.C17"], cwd=vlib.COQ, timeout=2400)
+        ctx.log(f"coqchk TeosModel.Properties.C17 -> rc={rc} in {dt:.1f}s")
+        ctx.coverage["coqchk"] = "ok (Axioms: <none>)" if rc == 0 and "Axioms: <none>" in out else "FAILED"
+        if rc != 0 or "Axioms: <none>" not in out:
+            ctx.broken.append({"kind": "proof", "what": "coqchk rejects the cone of Properties/C17 or reports axioms", "detail": out[-800:]})
     build_extraction_prereqs(ctx)
     ok_h = ctx.cargo_build(["crypto"])
     ok_o = ctx.ocaml_build()
